@@ -510,6 +510,55 @@ def enc_inputs():
     return [t for t in out if not (t in seen or seen.add(t))]
 
 
+# ---- long @charset headers: a rule head whose closing quote (if any) is far away.  Every place where the code could
+#      bound how long it waits for that quote is a length threshold; cut points are put around all of them.
+LONG_LENGTHS = [31, 60, 64, 65, 74, 75, 100, 128, 200]
+THRESHOLDS = [1, 2, 3, 4, 8, 10, 11, 16, 20, 32, 63, 64, 65, 73, 74, 75, 76, 84, 85, 86, 96, 127, 128, 129, 138, 139, 192, 210]
+
+
+def long_texts():
+    out = []
+    for n in LONG_LENGTHS:
+        name = ("x-" * n)[:n]
+        filler = ("a {c:d}\n" * n)[:n]
+        out.append('@charset "%s";a{}' % name)                      # complete rule, long name
+        out.append('@charset "%s";a{content:"x" }' % name)          # ... and a later string
+        out.append('@charset "utf-8;%sa{content:"x" }\n' % filler)  # unterminated rule, a quote much later
+        out.append('@charset "%s' % filler)                          # unterminated, never a quote
+    return out
+
+
+def long_dec_inputs():
+    """(bytes, decoder kwargs): the encoding is known without the rule (BOM / UTF-16/32 pattern / argument) or from it"""
+    out = []
+    for t in long_texts():
+        for codec, kws in (("utf-8", [(None, True), ("utf-8", True), ("latin-1", True), ("ascii", False)]),
+                           ("utf-8-sig", [(None, True)]), ("utf-16", [(None, True)]), ("utf-16-le", [(None, True)]),
+                           ("utf-32", [(None, True)])):
+            if codec == "utf-32" and len(t) > 110:
+                continue
+            b = t.encode(codec)
+            for kw in kws:
+                out.append((b, kw))
+    return out
+
+
+def threshold_cuts(x, unit=1):
+    """cut positions around every length threshold (in characters of `unit` bytes, with and without a BOM offset) and
+    around every quotation mark"""
+    n = len(x)
+    pos = {0, n, n - 1}
+    for th in THRESHOLDS:
+        for off in (0, 2, 3, 4):
+            for d in (-1, 0, 1):
+                pos.add(th * unit + off + d)
+    q = 34 if isinstance(x, (bytes, bytearray)) else '"'
+    for i, ch in enumerate(x):
+        if ch == q:
+            pos.update((i - 1, i, i + 1, i + unit))
+    return sorted(p for p in pos if 0 <= p <= n)
+
+
 def cuts(n, k):
     """all ways to cut a sequence of length n into k+1 (possibly empty) consecutive chunks"""
     return itertools.combinations_with_replacement(range(n + 1), k)
@@ -556,6 +605,22 @@ def gen_cases(ctx, thorough):
             plist.append(tuple(range(1, n)))
             for p in plist:
                 cases.append({"k": "E", "enc": enc, "chunks": split(t, p)})
+    # long headers: cuts around every length threshold, single and in pairs
+    for b, (enc, force) in long_dec_inputs():
+        unit = 4 if b[:4] in (b"\xff\xfe\x00\x00", b"\x00\x00\xfe\xff") else 2 if (b[:2] in (b"\xff\xfe", b"\xfe\xff") or b[1:2] == b"\x00") else 1
+        tc = threshold_cuts(b, unit)
+        plist = [()] + [(p_,) for p_ in tc]
+        plist += [tuple(sorted(rng.sample(tc, 2))) for _ in range(12 if thorough else 4)]
+        plist.append(tuple(tc))
+        for p_ in plist:
+            cases.append({"k": "D", "enc": enc, "force": force, "chunks": [c.hex() for c in split(b, p_)]})
+    for tx in long_texts():
+        tc = threshold_cuts(tx)
+        for enc in (None, "utf-8", "latin-1", "utf-8-sig", "utf-16"):
+            plist = [()] + [(p_,) for p_ in tc] + [tuple(sorted(rng.sample(tc, 2))) for _ in range(12 if thorough else 4)]
+            plist.append(tuple(tc))
+            for p_ in plist:
+                cases.append({"k": "E", "enc": enc, "chunks": split(tx, p_)})
     n_struct = len(cases)
     # random / malformed stream: mutated inputs, random finer partitions, long inputs
     alphabet = [b"@", b"c", b"h", b"a", b'"', b";", b"\x00", b"\xff", b"\xfe", b"\xef", b"\xbb", b"\xbf", b"\xc3", b"\xa9", b" ", b"-", b"8"]
@@ -606,6 +671,12 @@ def fn_cases(ctx, thorough):
         for cut in range(len(b) + 1):
             out.append(("S", cut % 2, b[:cut].hex()))
             out.append(("S", 1 - cut % 2, b[:cut].hex()))
+    for t in long_texts():
+        for cut in threshold_cuts(t):
+            for fin in (0, 1):
+                out.append(("U", fin, t[:cut]))
+                out.append(("F", fin, rng.choice(["utf-8", "latin-1", "UTF_8_SIG"]), t[:cut]))
+                out.append(("S", fin, t[:cut].encode("utf-8").hex()))
     for t in enc_inputs():
         for cut in range(len(t) + 1):
             for fin in (0, 1):
@@ -748,6 +819,12 @@ def run(ctx):
             for pt in plist:
                 ch = [c for c in split(bb, pt) if c]
                 rcases.append({"k": "D", "enc": enc, "force": force, "chunks": [c.hex() for c in ch]})
+    for bb, (enc, force) in long_dec_inputs():
+        if ctx.rng.random() < 0.5:
+            continue
+        tc = [p_ for p_ in threshold_cuts(bb) if 0 < p_ < len(bb)]
+        for pt in [()] + [(p_,) for p_ in tc[::2]] + [tuple(tc)]:
+            rcases.append({"k": "D", "enc": enc, "force": force, "chunks": [c.hex() for c in split(bb, pt) if c]})
     rimpl = ctx.pool_map(impl_sr, rcases, procs=6, chunksize=512)
     sr_compared = 0
     if binary:
@@ -781,6 +858,11 @@ def run(ctx):
             plist = [()] + [(i,) for i in range(n + 1)] + [tuple(range(1, n))] + \
                 [tuple(sorted(ctx.rng.randint(0, n) for _ in range(2))) for _ in range(4)]
             for pt in plist:
+                wcases.append({"k": "W", "enc": enc, "chunks": split(tx, pt)})
+    for tx in long_texts():
+        tc = threshold_cuts(tx)
+        for enc in (None, "utf-8", "utf-8-sig", "latin-1"):
+            for pt in [()] + [(p_,) for p_ in tc[::2]] + [tuple(tc)]:
                 wcases.append({"k": "W", "enc": enc, "chunks": split(tx, pt)})
     wimpl = ctx.pool_map(impl_sw, wcases, procs=6, chunksize=512)
     w_compared = 0
@@ -957,7 +1039,7 @@ def hunt(ctx, budget):
     """look for an input on which the property fails on the implementation (not covered by a known finding)"""
     t0 = time.time()
     rng = ctx.rng
-    base_d, base_e = dec_inputs(), enc_inputs()
+    base_d, base_e = dec_inputs() + [b for b, _ in long_dec_inputs()], enc_inputs() + long_texts()
     while time.time() - t0 < budget:
         batch = []
         for _ in range(3000):
